@@ -190,6 +190,32 @@ class C01(Prop):
         else:
             nu = None   # replay: only proportionality can be observed
 
+        def clip_argument(V):
+            """the clip scale must be computed from <V, D> with the raw gradient D"""
+            if not clip:
+                return
+            s_ref = O.frob(V, D) * lr * lr
+            if sym:
+                if eng.sqrt_log:
+                    arg = eng.sqrt_log[-1][0]
+                    # the code takes |vg_sum| right before the root: compare the
+                    # argument of that abs with the reference inner product
+                    # (a rational identity), then the composition (trivial)
+                    n_abs = len(eng.abs_log)
+                    if n_abs:
+                        inner, outer = eng.abs_log[n_abs - 1]
+                        eng.oblige_eq('clip-scale-uses-<V,D>-with-the-raw-gradient', inner, s_ref)
+                        eng.oblige_eq('clip-scale-is-sqrt(kl/|sum|)', arg, kl / outer)
+                    else:
+                        eng.oblige_eq('clip-scale-uses-<V,D>-with-the-raw-gradient', arg * O.sabs(s_ref), kl)
+            else:
+                import math
+                nu_ref = 1.0 if s_ref == 0 else min(1.0, math.sqrt(kl / abs(s_ref)))
+                scale = max(1.0, max(abs(x) for x in H.flat(V)))
+                ok = all(abs(w - nu_ref * v) <= eng.tol * scale for w, v in O.pairs(W, V))
+                eng.oblige('clip-scale-uses-<V,D>-with-the-raw-gradient', ok,
+                           info={'nu_ref': nu_ref, 'W': str(H.flat(W)[:4]), 'V': str(H.flat(V)[:4])})
+
         if method == 'inverse':
             calls = [c for c in log if c['fn'] == 'inv']
             eng.oblige('two-inverses-computed', len(calls) == 2, info={'n': len(calls)})
@@ -199,6 +225,7 @@ class C01(Prop):
             eng.oblige_all_eq('inv-argument-is-G+damping*I', O.pairs(calls[1]['arg'], G_l))
             R = O.mm(O.mm(G_l, W), A_l)
             self.proportional(eng, 'inverse-W-solves-the-damped-system', R, D, nu)
+            clip_argument(O.mm(O.mm(Gi, D), Ai) if sym else O.mm(O.mm(calls[1]['out'], D), calls[0]['out']))
         else:
             calls = [c for c in log if c['fn'] == 'eigh']
             eng.oblige('two-eigendecompositions-computed', len(calls) == 2, info={'n': len(calls)})
@@ -212,6 +239,7 @@ class C01(Prop):
             V = O.mm(O.mm(qg, v2), O.T(qa))
             if sym:
                 self.proportional(eng, 'eigen-W-solves-the-damped-system', W, V, nu)
+                clip_argument(V)
             else:
                 # replay on real torch: Q is orthogonal, so check the defining
                 # system itself:  G+ W A+ + lam W == nu * D
@@ -219,6 +247,7 @@ class C01(Prop):
                 Gp = O.mm(O.mm(qg, [[O.pos(dg[i]) if i == j else 0 for j in range(ng)] for i in range(ng)]), O.T(qg))
                 R = O.add(O.mm(O.mm(Gp, W), Ap), O.scale(lam, W))
                 self.proportional(eng, 'eigen-W-solves-the-damped-system', R, D, nu)
+                clip_argument(V)
         eng.oblige('gradient-dtype-preserved', H.dtype_tag(mod.weight.grad) == dtype_before,
                    info={'dtype': H.dtype_tag(mod.weight.grad), 'before': dtype_before})
 
